@@ -1,6 +1,7 @@
 package main
 
 import (
+	"sort"
 	"encoding/json"
 	"fmt"
 	"math"
@@ -140,6 +141,41 @@ func c19Gen(r *Rng, i int) c19Case {
 		case x < 3 || nh == 0:
 			k := r.Range(11, 14)
 			o := c19Op{Op: "alloc", K: k, Name: B(r.Str()), Tags: r.Tags(3)}
+			// "forwards every call to every child": also an allocation that repeats an earlier one
+			// (same kind, name and tags), or whose tags are an earlier allocation's with two of them
+			// run together into one value ("k1": "v1,k2=v2") - a different identity
+			if nh > 0 && r.Chance(30) {
+				var prev []c19Op
+				for _, q := range c.Ops {
+					if q.Op == "alloc" {
+						prev = append(prev, q)
+					}
+				}
+				q := prev[r.Intn(len(prev))]
+				k, o.K, o.Name = q.K, q.K, q.Name
+				o.Tags = map[B]B{}
+				var ks []string
+				for tk, tv := range q.Tags {
+					o.Tags[tk] = tv
+					ks = append(ks, string(tk))
+				}
+				if q.Tags == nil {
+					o.Tags = nil
+				}
+				if len(ks) >= 2 && r.Bool() {
+					sort.Strings(ks)
+					a, b := ks[0], ks[1]
+					o.Tags[B(a)] = B(string(q.Tags[B(a)]) + "," + b + "=" + string(q.Tags[B(b)]))
+					delete(o.Tags, B(b))
+				}
+				if k == 14 {
+					o.B, o.BDur = q.B, q.BDur
+					histH = append(histH, nh)
+					nh++
+					c.Ops = append(c.Ops, o)
+					continue
+				}
+			}
 			if k == 14 {
 				if r.Bool() {
 					o.B, o.BDur = []int64{r.I64(), r.I64()}, true
